@@ -55,16 +55,87 @@ func (d *drv) Open(name string) (driver.Conn, error) {
 
 type conn struct{ c driver.Conn }
 
-func (c *conn) Prepare(q string) (driver.Stmt, error) { return c.c.Prepare(rewrite(q)) }
+// mutating reports the leading keyword of a statement that changes the
+// database ("" for reads and session statements).
+func mutating(q string) string {
+	f := strings.Fields(q)
+	if len(f) == 0 {
+		return ""
+	}
+	switch k := strings.ToUpper(f[0]); k {
+	case "INSERT", "UPDATE", "DELETE", "REPLACE":
+		tbl := ""
+		for i, w := range f {
+			if u := strings.ToUpper(w); (u == "INTO" || u == "FROM" || (k == "UPDATE" && i == 0)) && i+1 < len(f) {
+				tbl = strings.Trim(f[i+1], "(`\"")
+				break
+			}
+		}
+		return k + " " + tbl
+	}
+	return ""
+}
+
+func sqlOp(q string) error {
+	if m := mutating(q); m != "" {
+		return simrt.SQLOp(m)
+	}
+	return nil
+}
+
+// stmt wraps a prepared statement so that its executions are crash points too.
+type stmt struct {
+	driver.Stmt
+	q string
+}
+
+func (s *stmt) Exec(args []driver.Value) (driver.Result, error) { //nolint
+	if err := sqlOp(s.q); err != nil {
+		return nil, err
+	}
+	return s.Stmt.Exec(args) //nolint
+}
+
+func (s *stmt) ExecContext(ctx context.Context, a []driver.NamedValue) (driver.Result, error) {
+	if err := sqlOp(s.q); err != nil {
+		return nil, err
+	}
+	if e, ok := s.Stmt.(driver.StmtExecContext); ok {
+		return e.ExecContext(ctx, a)
+	}
+	return nil, driver.ErrSkip
+}
+
+func (s *stmt) QueryContext(ctx context.Context, a []driver.NamedValue) (driver.Rows, error) {
+	if q, ok := s.Stmt.(driver.StmtQueryContext); ok {
+		return q.QueryContext(ctx, a)
+	}
+	return nil, driver.ErrSkip
+}
+
+func (c *conn) Prepare(q string) (driver.Stmt, error) {
+	st, err := c.c.Prepare(rewrite(q))
+	if err != nil {
+		return nil, err
+	}
+	return &stmt{st, q}, nil
+}
 func (c *conn) Close() error                          { return c.c.Close() }
 func (c *conn) Begin() (driver.Tx, error)             { return c.c.Begin() } //nolint
 func (c *conn) BeginTx(ctx context.Context, o driver.TxOptions) (driver.Tx, error) {
 	return c.c.(driver.ConnBeginTx).BeginTx(ctx, o)
 }
 func (c *conn) PrepareContext(ctx context.Context, q string) (driver.Stmt, error) {
-	return c.c.(driver.ConnPrepareContext).PrepareContext(ctx, rewrite(q))
+	st, err := c.c.(driver.ConnPrepareContext).PrepareContext(ctx, rewrite(q))
+	if err != nil {
+		return nil, err
+	}
+	return &stmt{st, q}, nil
 }
 func (c *conn) ExecContext(ctx context.Context, q string, a []driver.NamedValue) (driver.Result, error) {
+	if err := sqlOp(q); err != nil {
+		return nil, err
+	}
 	return c.c.(driver.ExecerContext).ExecContext(ctx, rewrite(q), a)
 }
 func (c *conn) QueryContext(ctx context.Context, q string, a []driver.NamedValue) (driver.Rows, error) {
